@@ -1,7 +1,7 @@
 (* C16 — the watcher reacts to relevant changes only, and survives any file name.
    Property theorems only: each is closed by `exact <lemma>`; assumptions are printed by the check. *)
-From Zinoma.Model Require Import Bytes Ext.
-From Zinoma.Proofs Require Import Bytes Ext.
+From Zinoma.Model Require Import Bytes Ext Watch.
+From Zinoma.Proofs Require Import Bytes Ext Watch.
 
 (* the filter applied to each event path is total (a boolean for every byte string) and says exactly:
    not an editor temporary, no `.zinoma` component, name ends with one of the extensions (if any) *)
@@ -77,6 +77,36 @@ Example C16_declared_file_nonvacuous :
   watch_filter2 declared [conf_settings] None conf_sub_x = true /\
   watch_filter2 declared [conf_settings] None src_a = true.
 Proof. vm_compute. repeat split. Qed.
+
+(* WHICH OPERATIONS ARE REPORTED AT ALL (Model/Watch.v; the semantics of inotify watches is ASSUMED there: a directory watch
+   reports its children by name, a watch on a file follows the inode and dies when the path gets a new one).  `run_ops W ops` =
+   one flag per operation: was it reported to the callback?  The watches of one group of declared paths: `watches_pinned dirs
+   files` before the repair of D16, `watches_fixed dirs files` after it (the directory of every declared file that no declared
+   directory covers is watched too). *)
+
+(* after the repair every operation on a declared file — rewritten in place or replaced by a rename, any number of times in any
+   order — is reported *)
+Theorem C16_fixed_reports_every_change_of_a_declared_file : forall dirs files f q ops,
+  In f files -> parent_seq (pseq f) = Some q ->
+  (forall o, In o ops -> pseq (op_path o) = pseq f) ->
+  Forall (fun b => b = true) (run_ops (watches_fixed dirs files) ops).
+Proof. exact fixed_reports_every_change. Qed.
+
+(* D16: before the repair, after ONE atomic save of a declared file nothing about it is reported any more *)
+Theorem C16_pinned_file_watch_lost_refuted :
+  let f := [47;112;47;99;111;110;102;47;115;46;105;110;105] in      (* "/p/conf/s.ini" *)
+  run_ops (watches_pinned [] [f]) [OpReplace f; OpModify f; OpReplace f] = [true; false; false] /\
+  run_ops (watches_fixed [] [f]) [OpReplace f; OpModify f; OpReplace f] = [true; true; true].
+Proof. exact pinned_file_watch_lost. Qed.
+
+(* operations below a declared directory are reported, before and after the repair; with no declared file the repair adds nothing *)
+Theorem C16_below_declared_dir_reported : forall dirs files d ops (fixed : bool),
+  In d dirs -> (forall o, In o ops -> lprefix (pseq d) (pseq (op_path o)) = true) ->
+  Forall (fun b => b = true) (run_ops (if fixed then watches_fixed dirs files else watches_pinned dirs files) ops).
+Proof. exact below_declared_dir_reported. Qed.
+
+Theorem C16_fixed_eq_pinned_without_files : forall dirs, watches_fixed dirs [] = watches_pinned dirs [].
+Proof. exact fixed_eq_pinned_without_files. Qed.
 
 (* non-vacuity: a concrete relevant path, a concrete temporary, a concrete state write *)
 Example C16_nonvacuous :
